@@ -1,7 +1,9 @@
 package harness
 
 import (
+	"github.com/LemoFoundationLtd/lemochain-core/chain/params"
 	"github.com/LemoFoundationLtd/lemochain-core/chain/txpool"
+	"github.com/LemoFoundationLtd/lemochain-core/store"
 	"github.com/LemoFoundationLtd/lemochain-core/common/log"
 )
 
@@ -12,4 +14,8 @@ func setupLogging() {
 // resetGlobals restores process-global knobs at the start of every run.
 func resetGlobals() {
 	txpool.VerifSetDefaultPoolCap(128)
+	params.TermDuration = 1000000
+	params.InterimDuration = 1000
+	params.RewardCheckHeight = 100000
+	store.VerifSetMaxCandidateCount(20)
 }
